@@ -32,6 +32,8 @@ def strategy(tier, unit):
 
 def _check_images(ctx, D, o, nx, ny, tag):
     img = np.arange(nx * ny).reshape(nx, ny) + 1
+    if O.LAYOUT_F:
+        img = np.asfortranarray(img)   # a column-major raw image (same pixels, other memory order)
     img.setflags(write=False)          # the transformations must not write into the caller's image
     t = D.trans_orientation(img, *o)
     if not np.array_equal(D.trans_orientation(t, *o, 'inverse'), img):
@@ -172,6 +174,7 @@ def check(case, ctx):
     ctx.near("real detyz->xy->detyz", O.maxabs(c2 - [yr, xr]), 1e-9, "xy_to_detyz-not-inverse/real", "o=%r %dx%d" % (o, nx, ny))
     # (dety,detz) <-> (eta, radius)
     eta, rad, y0, z0 = case["eta"], case["rad"], case["y0"], case["z0"]
+    ctx.keep("eta_and_radpix_to_detyz", D.eta_and_radpix_to_detyz((eta + 77.0) % 360.0, rad + 1.0, y0, z0))
     cc = np.asarray(D.eta_and_radpix_to_detyz(eta, rad, y0, z0), float)
     ref = np.array([y0 - rad * math.sin(math.radians(eta)), z0 + rad * math.cos(math.radians(eta))])
     ctx.near("eta,rad->detyz (clockwise from 12 o'clock)", O.maxabs(cc - ref) / rad, 1e-12, "eta_and_radpix_to_detyz/definition", "eta=%r rad=%r -> %r expected %r" % (eta, rad, cc.tolist(), ref.tolist()))
